@@ -382,7 +382,7 @@ var sizedShapes = [][3]string{
 
 func sizeStep(t *rapid.T, label string) int {
 	steps := SizeSteps
-	if os.Getenv("VERIF_TIER") == "thorough" && rapid.IntRange(0, 3).Draw(t, label+".big") == 0 {
+	if os.Getenv("VERIF_TIER_NAME") == "thorough" && rapid.IntRange(0, 3).Draw(t, label+".big") == 0 {
 		steps = sizeStepsThorough
 	}
 	return steps[rapid.IntRange(0, len(steps)-1).Draw(t, label+".k")]
